@@ -128,15 +128,17 @@ Ltac csplit := repeat match goal with |- _ /\ _ => split end.
 
 Section Sim.
   Variable frepr : fl -> str.
-  Notation flush_one := (flush_one merge).
-  Notation flush_all := (flush_all merge).
-  Notation check_capacity := (check_capacity frepr merge).
-  Notation set_capacity := (set_capacity frepr merge).
-  Notation load := (load frepr merge).
-  Notation save := (save frepr merge).
-  Notation cop := (cop frepr merge).
-  Notation cstep := (cstep frepr merge).
-  Notation crun := (crun frepr merge).
+  (* project paths are canonical: a key is the file it denotes *)
+  Notation idk := (fun k : N => k).
+  Notation flush_one := (flush_one merge idk).
+  Notation flush_all := (flush_all merge idk).
+  Notation check_capacity := (check_capacity frepr merge idk).
+  Notation set_capacity := (set_capacity frepr merge idk).
+  Notation load := (load frepr merge idk).
+  Notation save := (save frepr merge idk).
+  Notation cop := (cop frepr merge idk).
+  Notation cstep := (cstep frepr merge idk).
+  Notation crun := (crun frepr merge idk).
 
   Lemma nset_lookup_id : forall (mm : list (N * (N * json))) h v x,
     nlookup h mm = Some v -> nlookup x (nset h v mm) = nlookup x mm.
@@ -165,7 +167,7 @@ Section Sim.
     nowrite (dk B') = [] /\ ferr_of B' = ferr_of B /\ oerr_of B' = oerr_of B /\
     (forall f0, f0 <> f -> nlookup f0 (vers (dk B')) = nlookup f0 (vers (dk B))).
   Proof.
-    intros B h f m e Hm He Hc Hme Hnw. cbv zeta. unfold Doc.flush_one. rewrite Hm, He, Hc, merge_same.
+    intros B h f m e Hm He Hc Hme Hnw. cbv zeta. unfold Doc.flush_one; cbv beta. rewrite Hm, He, Hc, merge_same.
     destruct (json_eqb m (b_hash e)); [simpl; repeat split; auto|].
     rewrite Hme, ometa_eqb_refl, Hnw. simpl. repeat split; auto.
     - intro x. apply nset_lookup_id. exact Hm.
@@ -247,7 +249,7 @@ Section Sim.
   Lemma flush_one_buf : forall B h f0 e0,
     nlookup f0 (buf (flush_one B h)) = Some e0 -> nlookup f0 (buf B) = Some e0.
   Proof.
-    intros B h f0 e0 H. unfold Doc.flush_one in H.
+    intros B h f0 e0 H. unfold Doc.flush_one in H; cbv beta in H.
     destruct (nlookup h (mems B)) as [[f m]|]; [|exact H].
     destruct (nlookup f (buf B)) as [e|] eqn:He; [|exact H].
     assert (G : forall st1, buf st1 = buf B -> nlookup f0 (buf (with_buf st1 (nremove f (buf st1)))) = Some e0 -> nlookup f0 (buf B) = Some e0).
@@ -262,7 +264,7 @@ Section Sim.
   Lemma flush_one_own : forall B h f m,
     nlookup h (mems B) = Some (f, m) -> nlookup f (buf (flush_one B h)) = None.
   Proof.
-    intros B h f m Hm. unfold Doc.flush_one. rewrite Hm.
+    intros B h f m Hm. unfold Doc.flush_one; cbv beta. rewrite Hm.
     destruct (nlookup f (buf B)) as [e|] eqn:He; [|exact He].
     simpl. apply nlookup_nremove_same.
   Qed.
@@ -335,7 +337,7 @@ Section Sim.
   (* ---- bookkeeping steps ---- *)
   Lemma flush_one_depth : forall B h, depth (flush_one B h) = depth B.
   Proof.
-    intros B h. unfold Doc.flush_one. destruct (nlookup h (mems B)) as [[f m]|]; [|reflexivity].
+    intros B h. unfold Doc.flush_one; cbv beta. destruct (nlookup h (mems B)) as [[f m]|]; [|reflexivity].
     destruct (nlookup f (buf B)) as [e|]; [|reflexivity]. destruct (json_eqb m (b_hash e)); [reflexivity|].
     destruct (negb (ometa_eqb (b_meta e) (nlookup f (vers (dk B))))); [reflexivity|].
     destruct (nmem f (nowrite (dk B))); reflexivity.
@@ -509,7 +511,7 @@ Section Sim.
   Proof.
     intros B U h f m [I Hd0] HfB HfU Hm.
     pose proof (i_h B U I h f m Hm) as Hh.
-    unfold Doc.load. rewrite (i_depthU B U I).
+    unfold Doc.load; cbv beta. rewrite (i_depthU B U I).
     destruct (depth B) as [|d] eqn:Ed.
     - (* outside any block *)
       specialize (Hd0 eq_refl).
@@ -533,7 +535,7 @@ Section Sim.
         * intros e He. simpl in He. rewrite (Hd0 f) in He. discriminate.
       + intros _ f0. simpl. apply Hd0.
     - (* inside a block: through the buffer *)
-      unfold Doc.load_buffered.
+      unfold Doc.load_buffered; cbv beta.
       destruct (nlookup f (buf B)) as [e|] eqn:He.
       + (* the file is in the buffer *)
         unfold hinv in Hh. rewrite He in Hh. destruct Hh as (Hobj & Hc & H0 & Hcd).
@@ -612,7 +614,7 @@ Section Sim.
   Proof.
     intros B U h f m0 m' [I Hd0] HfB HfU Hm Hobj.
     pose proof (i_h B U I h f m0 Hm) as Hh.
-    unfold Doc.save. rewrite (i_depthU B U I). rewrite (i_nwU B U I). simpl (nmem f []).
+    unfold Doc.save; cbv beta. rewrite (i_depthU B U I). rewrite (i_nwU B U I). simpl (nmem f []).
     destruct (depth B) as [|d] eqn:Ed.
     - specialize (Hd0 eq_refl). rewrite (i_nwB B U I). simpl (nmem f []).
       split; [|split; [simpl; apply nlookup_nset_same|split; [simpl; exact Ed|split; [exact HfB|split; [apply (i_oB B U I)|split; [exact HfU|apply (i_oU B U I)]]]]]].
@@ -633,7 +635,7 @@ Section Sim.
         * intros f0 Hne. simpl. apply nlookup_nset_other. auto.
         * intros e He. simpl in He. rewrite (Hd0 f) in He. discriminate.
       + intros _ f0. simpl. apply Hd0.
-    - unfold Doc.save_buffered.
+    - unfold Doc.save_buffered; cbv beta.
       set (B0 := register (set_mem B h f m') h).
       set (U' := write_file (set_mem U h f m') f m').
       assert (Eb0 : buf B0 = buf B) by (unfold B0, register; destruct (nmem h (reg (set_mem B h f m'))); reflexivity).
@@ -679,8 +681,8 @@ Section Sim.
   (* ---- one document operation ---- *)
   Lemma walk_sim : forall p B U h f m pre,
     Inv B U -> ferr_of B = false -> ferr_of U = false -> nlookup h (mems B) = Some (f, m) ->
-    let '(B', mB, eB) := walk frepr merge B h f m pre p in
-    let '(U', mU, eU) := walk frepr merge U h f m pre p in
+    let '(B', mB, eB) := walk frepr merge (fun k : N => k) B h f m pre p in
+    let '(U', mU, eU) := walk frepr merge (fun k : N => k) U h f m pre p in
     mB = mU /\ eB = eU /\ Inv B' U' /\ nlookup h (mems B') = Some (f, mB) /\ depth B' = depth B /\ is_obj mB /\
     ferr_of B' = false /\ ferr_of U' = false.
   Proof.
@@ -691,8 +693,8 @@ Section Sim.
       destruct Hl as (-> & I1 & Hm1 & D1 & Ho1 & F1 & F1'). rewrite F1, F1'.
       destruct (get_at (pre ++ [e]) m1').
       + specialize (IH B1 U1 h f m1' (pre ++ [e]) I1 F1 F1' Hm1).
-        destruct (walk frepr merge B1 h f m1' (pre ++ [e]) p) as [[B2 m2] e2].
-        destruct (walk frepr merge U1 h f m1' (pre ++ [e]) p) as [[U2 m2'] e2'].
+        destruct (walk frepr merge (fun k : N => k) B1 h f m1' (pre ++ [e]) p) as [[B2 m2] e2].
+        destruct (walk frepr merge (fun k : N => k) U1 h f m1' (pre ++ [e]) p) as [[U2 m2'] e2'].
         destruct IH as (A & B0 & C & D & E & F & G & H). csplit; auto. congruence.
       + csplit; auto.
   Qed.
@@ -735,8 +737,8 @@ Section Sim.
     assert (Em : nlookup h (mems B) = nlookup h (mems U)) by (destruct I as [I _]; apply (i_mems B U I)).
     rewrite <- Em. destruct (nlookup h (mems B)) as [[f m0]|] eqn:Hm; [|auto].
     pose proof (walk_sim p B U h f m0 [] I HfB HfU Hm) as Hw.
-    destruct (walk frepr merge B h f m0 [] p) as [[B0 mB] eB].
-    destruct (walk frepr merge U h f m0 [] p) as [[U0 mU] eU].
+    destruct (walk frepr merge (fun k : N => k) B h f m0 [] p) as [[B0 mB] eB].
+    destruct (walk frepr merge (fun k : N => k) U h f m0 [] p) as [[U0 mU] eU].
     destruct Hw as (-> & -> & I0 & Hm0 & D0 & Ho0 & F0 & F0').
     destruct eU as [e|]; [auto|].
     assert (Hl : let '(B1, m1) := (if op_loads o then load B0 h f mU else (B0, mU)) in
@@ -881,8 +883,8 @@ Definition prog_lost : list citem :=
   [CNew 1 1; CNew 2 1; CEnter None; COp 1 [] OGet; COp 2 [] OGet; COp 1 [] (OSet kx (JInt 1)); CExit].
 
 Lemma buffer_transparent_refuted_w :
-  let B := fst (crun fr0 merge core0 prog_lost) in
-  let U := fst (crun fr0 merge core0 (strip prog_lost)) in
+  let B := fst (crun fr0 merge (fun k : N => k) core0 prog_lost) in
+  let U := fst (crun fr0 merge (fun k : N => k) core0 (strip prog_lost)) in
   depth B = 0%nat /\ fcontent B 1 = JObj [] /\ fcontent U 1 = JObj [(kx, JInt 1)].
 Proof. vm_compute. repeat split. Qed.
 
@@ -892,8 +894,8 @@ Definition prog_own : list citem :=
    COp 1 [] (OSet kx (JInt 1)); COp 1 [] OGet].
 
 Lemma read_own_writes_refuted_w :
-  nth 6 (snd (crun fr0 merge core0 prog_own)) (Err EOther) = Ok JNull /\
-  nth 7 (snd (crun fr0 merge core0 prog_own)) (Err EOther) = Ok (JObj []).
+  nth 6 (snd (crun fr0 merge (fun k : N => k) core0 prog_own)) (Err EOther) = Ok JNull /\
+  nth 7 (snd (crun fr0 merge (fun k : N => k) core0 prog_own)) (Err EOther) = Ok (JObj []).
 Proof. vm_compute. split; reflexivity. Qed.
 
 (* update() cannot replace a nested dict by None: not even Python-equal to the plain dict *)
@@ -903,8 +905,8 @@ Definition plain_none : json :=
   fst (plain_step [] (OUpdate [(kc, JNull)]) (fst (plain_step [] (OSet kc (JObj [(kx, JInt 1)])) (JObj [])))).
 
 Lemma doc_faithful_refuted_w :
-  exists v, nth 3 (snd (crun fr0 merge core0 prog_none)) (Err EOther) = Ok v /\
-            fcontent (fst (crun fr0 merge core0 prog_none)) 1 = v /\
+  exists v, nth 3 (snd (crun fr0 merge (fun k : N => k) core0 prog_none)) (Err EOther) = Ok v /\
+            fcontent (fst (crun fr0 merge (fun k : N => k) core0 prog_none)) 1 = v /\
             plain_none = JObj [(kc, JNull)] /\ py_eq v plain_none = false.
 Proof. eexists. vm_compute. repeat split. Qed.
 
@@ -913,7 +915,7 @@ Definition prog_typed : list citem :=
   [CNew 1 1; COp 1 [] (OSet kx (JInt 1)); COp 1 [] (OUpdate [(kx, JBool true)]); COp 1 [] OGet].
 
 Lemma doc_faithful_typed_refuted_w :
-  nth 3 (snd (crun fr0 merge core0 prog_typed)) (Err EOther) = Ok (JObj [(kx, JInt 1)]) /\
+  nth 3 (snd (crun fr0 merge (fun k : N => k) core0 prog_typed)) (Err EOther) = Ok (JObj [(kx, JInt 1)]) /\
   fst (plain_step [] (OUpdate [(kx, JBool true)]) (JObj [(kx, JInt 1)])) = JObj [(kx, JBool true)] /\
   py_eq (JObj [(kx, JInt 1)]) (JObj [(kx, JBool true)]) = true.
 Proof. vm_compute. repeat split. Qed.
@@ -927,7 +929,7 @@ Qed.
 
 Section Follow.
   Variable frepr : fl -> str.
-  Notation jstep := (jstep frepr merge).
+  Notation jstep := (jstep frepr merge (fun k : N => k)).
 
   (* after a successful re-key the next document access of that Job object goes through a NEW collection
      bound to the file of the NEW id, in a directory that exists *)
@@ -938,10 +940,11 @@ Section Follow.
     nlookup j (jobs js1) = Some (f', None) /\
     nlookup f' (files (core js1)) = nlookup f (files (core js)) /\
     nlookup f (files (core js1)) = None /\
-    exists js2 h, resolve_doc frepr merge js1 j = Some (js2, h) /\
+    exists js2 h, resolve_doc frepr merge (fun k : N => k) js1 j = Some (js2, h) /\
                   nlookup h (mems (core js2)) = Some (f', empty_obj) /\ nmem f' (dirs js2) = true.
   Proof.
-    intros js j f f' d Hj Hne Hd Hd' H0. cbv zeta. unfold Doc.jstep. rewrite Hj.
+    intros js j f f' d Hj Hne Hd Hd' H0. cbv zeta. unfold Doc.jstep. rewrite Hj. cbv beta zeta.
+    rewrite N.sub_diag, N.add_0_r.
     assert (E : N.eqb f f' = false) by (apply N.eqb_neq; exact Hne). rewrite E, Hd, Hd'. simpl.
     split; [reflexivity|]. split; [apply nlookup_nset_same|].
     split.
@@ -962,7 +965,7 @@ Section Follow.
     nlookup j (jobs js) = Some (f, d) -> nmem f (dirs js) = true -> depth (core js) = 0%nat ->
     let js1 := fst (jstep js (JRemove j)) in
     nlookup j (jobs js1) = Some (f, None) /\ nlookup f (files (core js1)) = None /\ nmem f (dirs js1) = false /\
-    exists js2 h, resolve_doc frepr merge js1 j = Some (js2, h) /\
+    exists js2 h, resolve_doc frepr merge (fun k : N => k) js1 j = Some (js2, h) /\
                   nlookup h (mems (core js2)) = Some (f, empty_obj) /\ h = nexth js.
   Proof.
     intros js j f d Hj Hd H0. cbv zeta. unfold Doc.jstep. rewrite Hj, Hd. simpl. rewrite H0. simpl.
@@ -978,9 +981,9 @@ Section Follow.
   (* every document operation of a Job object goes to the file of the id the object currently has *)
   Lemma follow_op : forall js j f p o,
     nlookup j (jobs js) = Some (f, None) ->
-    exists js1 h, resolve_doc frepr merge js j = Some (js1, h) /\ nlookup h (mems (core js1)) = Some (f, empty_obj) /\
-                  jstep js (JOp j p o) = (with_core js1 (fst (cstep frepr merge (core js1) (COp h p o))),
-                                          snd (cstep frepr merge (core js1) (COp h p o))).
+    exists js1 h, resolve_doc frepr merge (fun k : N => k) js j = Some (js1, h) /\ nlookup h (mems (core js1)) = Some (f, empty_obj) /\
+                  jstep js (JOp j p o) = (with_core js1 (fst (cstep frepr merge (fun k : N => k) (core js1) (COp h p o))),
+                                          snd (cstep frepr merge (fun k : N => k) (core js1) (COp h p o))).
   Proof.
     intros js j f p o Hj. unfold Doc.jstep, resolve_doc. rewrite Hj. eexists. eexists. split; [reflexivity|].
     split; [simpl; apply nlookup_nset_same|].
@@ -1051,9 +1054,9 @@ Qed.
 
 Section Unbuf.
   Variable frepr : fl -> str.
-  Notation load := (load frepr merge).
-  Notation save := (save frepr merge).
-  Notation cop := (cop frepr merge).
+  Notation load := (load frepr merge (fun k : N => k)).
+  Notation save := (save frepr merge (fun k : N => k)).
+  Notation cop := (cop frepr merge (fun k : N => k)).
 
   (* outside blocks, collection h holds exactly what its file holds (an absent file = the empty document),
      and the file's directory exists *)
@@ -1067,7 +1070,7 @@ Section Unbuf.
   Lemma uload : forall st h f d, uptodate st h f d ->
     load st h f d = (set_mem st h f d, d).
   Proof.
-    intros st h f d (Hd & Hm & Hf & _). unfold Doc.load. rewrite Hd. unfold fcontent in Hf.
+    intros st h f d (Hd & Hm & Hf & _). unfold Doc.load; cbv beta. rewrite Hd. unfold fcontent in Hf.
     destruct (nlookup f (files st)) as [v|]; simpl; [subst v; rewrite merge_same|]; reflexivity.
   Qed.
 
@@ -1087,7 +1090,7 @@ Section Unbuf.
 
   Lemma uwalk : forall p st h f d pre v0,
     uptodate st h f d -> ferr_of st = false -> get_at pre d = Ok v0 ->
-    let '(st', m', e) := walk frepr merge st h f d pre p in
+    let '(st', m', e) := walk frepr merge (fun k : N => k) st h f d pre p in
     m' = d /\ uptodate st' h f d /\ same_but_mem st st' h /\
     e = match get_at (pre ++ p) d with Ok _ => None | Err x => Some x end.
   Proof.
@@ -1099,7 +1102,7 @@ Section Unbuf.
       replace (pre ++ el :: p) with ((pre ++ [el]) ++ p) by (rewrite <- app_assoc; reflexivity).
       destruct (get_at (pre ++ [el]) d) as [v1|x] eqn:Eg.
       + specialize (IH (set_mem st h f d) h f d (pre ++ [el]) v1 Hu1 Hq1 Eg).
-        destruct (walk frepr merge (set_mem st h f d) h f d (pre ++ [el]) p) as [[st' m'] e].
+        destruct (walk frepr merge (fun k : N => k) (set_mem st h f d) h f d (pre ++ [el]) p) as [[st' m'] e].
         destruct IH as (A & B & C & D). split; [exact A|]. split; [exact B|]. split; [|exact D].
         eapply same_but_mem_trans; eauto.
       + rewrite get_at_app, Eg. split; [reflexivity|]. split; [exact Hu1|]. split; [exact Hs1|reflexivity].
@@ -1111,7 +1114,7 @@ Section Unbuf.
     (forall x, x <> h -> nlookup x (mems (save st h f d')) = nlookup x (mems st)) /\
     ferr_of (save st h f d') = ferr_of st /\ oerr_of (save st h f d') = oerr_of st.
   Proof.
-    intros st h f d d' (Hd & Hm & Hf & Hn). unfold Doc.save. rewrite Hd, Hn. simpl. split; [|split; [|split; [|split; reflexivity]]].
+    intros st h f d d' (Hd & Hm & Hf & Hn). unfold Doc.save; cbv beta. rewrite Hd, Hn. simpl. split; [|split; [|split; [|split; reflexivity]]].
     - split; [exact Hd|]. split; [simpl; apply nlookup_nset_same|]. split; [|exact Hn].
       unfold fcontent. simpl. rewrite nlookup_nset_same. reflexivity.
     - intros f0 Hne. apply nlookup_nset_other. auto.
@@ -1134,7 +1137,7 @@ Section Unbuf.
     destruct Hu as (Hd & Hm & Hf & Hn). rewrite Hm.
     assert (Hu : uptodate st h f d) by (split; [exact Hd|split; [exact Hm|split; [exact Hf|exact Hn]]]).
     pose proof (uwalk p st h f d [] d Hu Hq eq_refl) as Hw. simpl app in Hw.
-    destruct (walk frepr merge st h f d [] p) as [[st0 m0] e0].
+    destruct (walk frepr merge (fun k : N => k) st h f d [] p) as [[st0 m0] e0].
     destruct Hw as (-> & Hu0 & (F0 & D0 & K0 & M0) & ->).
     unfold doc_apply.
     destruct (get_at p d) as [t|x] eqn:Eg.
@@ -1197,29 +1200,46 @@ Lemma remove_in_block_fresh_w :
 Proof. vm_compute. split; reflexivity. Qed.
 
 (* ================= handle provenance and working directory ================= *)
-(* The model identifies a document by project + job (the file id): how a Job/Project object was obtained and
-   where the process's working directory points do not enter the model's state or results.  All handles on one
-   project/job therefore form ONE equivalence class; that the implementation agrees (absolute, normalised
-   file names as buffer keys) is what the correspondence checks on every provenance / chdir it generates. *)
-Lemma provenance_irrelevant : forall frepr js j f p p',
-  jstep frepr merge js (JOpen j f p) = jstep frepr merge js (JOpen j f p').
+(* The model identifies a document by project + job: how a Job/Project object was obtained and where the process's
+   working directory points do not enter the model's state or results — with ONE exception that the unchanged code
+   has as well: a project path through a symlinked prefix is not canonicalised by abspath, so such an object spells
+   its file names differently ([key_of]); all other provenances form one equivalence class. *)
+Lemma provenance_irrelevant : forall frepr canon js j f p p',
+  p <> prov_symlink -> p' <> prov_symlink ->
+  jstep frepr merge canon js (JOpen j f p) = jstep frepr merge canon js (JOpen j f p').
+Proof.
+  intros frepr canon js j f p p' H H'. simpl. unfold key_of.
+  apply N.eqb_neq in H, H'. rewrite H, H'. reflexivity.
+Qed.
+
+Lemma cwd_irrelevant : forall frepr canon js d, jstep frepr merge canon js (JCwd d) = (js, Ok JNull).
 Proof. reflexivity. Qed.
 
-Lemma cwd_irrelevant : forall frepr js d, jstep frepr merge js (JCwd d) = (js, Ok JNull).
-Proof. reflexivity. Qed.
-
+Definition erase1 (p : N) : N := if N.eqb p prov_symlink then prov_symlink else 0%N.
 Fixpoint erase_prov (prog : list jitem) : list jitem :=
   match prog with
   | [] => []
-  | JOpen j f _ :: r => JOpen j f 0 :: erase_prov r
+  | JOpen j f p :: r => JOpen j f (erase1 p) :: erase_prov r
   | it :: r => it :: erase_prov r
   end.
 
 Lemma jrun_provenance : forall frepr prog js, jrun frepr merge js (erase_prov prog) = jrun frepr merge js prog.
 Proof.
   intros frepr prog. induction prog as [|it prog IH]; intro js; [reflexivity|].
-  assert (H : forall it', jstep frepr merge js it' = jstep frepr merge js it ->
+  assert (H : forall it', jstep frepr merge canon100 js it' = jstep frepr merge canon100 js it ->
               jrun frepr merge js (it' :: erase_prov prog) = jrun frepr merge js (it :: prog)).
-  { intros it' E. simpl. rewrite E. destruct (jstep frepr merge js it) as [js1 x]. rewrite IH. reflexivity. }
-  destruct it; simpl erase_prov; apply H; reflexivity.
+  { intros it' E. simpl. rewrite E. destruct (jstep frepr merge canon100 js it) as [js1 x]. rewrite IH. reflexivity. }
+  destruct it; simpl erase_prov; apply H; try reflexivity.
+  simpl. unfold key_of, erase1. destruct (N.eqb prov prov_symlink) eqn:E; [rewrite N.eqb_refl|]; reflexivity.
 Qed.
+
+(* two spellings of one job document written in one block: two buffer entries, BufferedError on exit, the write of
+   the object flushed second is lost (known finding 4) *)
+Definition prog_symlink : list jitem :=
+  [JOpen 0 1 1; JOpen 1 1 prov_symlink; JInit 0; JEnter None; JOp 0 [] (OSet kx (JInt 1)); JOp 1 [] (OSet kc (JInt 2)); JExit].
+
+Lemma symlink_two_keys_refuted_w :
+  let obs := jrun fr0 merge (init_js 33554432) prog_symlink in
+  map o_ret (skipn 6 obs) = [Err ERuntimeError] /\
+  o_files (last obs (model_obs (init_js 0) (Ok JNull))) = [(1, JObj [(kc, JInt 2)])].
+Proof. vm_compute. split; reflexivity. Qed.
